@@ -479,6 +479,7 @@ def run(ctx):
     ctx.rule("C06.once", "one do_switch call hands a model to switch_action at most once", 1)
     c06_once.run_rule(ctx, repo)
     c06_schedule.run_rule(ctx, repo)
+    c06_schedule.owners_rule(ctx, repo)
     before = len(ctx.results)
     c04.rule_stepsize(ctx, repo)
     c04.rule_run_loop(ctx, repo)
